@@ -551,9 +551,12 @@ def _expand(args):
     return res
 
 
-def explore(report, pid, uni_name, cls, cfg, events, depth, max_adds=2, tag="", sig_prefix=None, frontier_cap=None):
+def explore(report, pid, uni_name, cls, cfg, events, depth, max_adds=2, tag="", sig_prefix=None, frontier_cap=None, merge=True):
     """BFS over histories.  Failures are reported with sig = <cls>[tag]:<event kind>:<reason> and
-    case = canonical history string."""
+    case = canonical history string.
+    merge=False: no state merging at all (every history whose proper prefixes all answered correctly is
+    executed), so the set of failing histories is a function of the implementation's answers only – used
+    where exact failing-case sets are recorded as known findings."""
     _EXP.clear()
     _EXP.update(uni=uni_name, cls=cls, cfg=cfg, events=events, max_adds=max_adds)
     seen = set()
@@ -564,10 +567,16 @@ def explore(report, pid, uni_name, cls, cfg, events, depth, max_adds=2, tag="", 
         chunks = [frontier[i::64] for i in range(64)]
         chunks = [c for c in chunks if c]
         nxt = []
+        level = []
         for res in pmap(_expand, chunks):
             if isinstance(res, dict):  # a crashed worker (common._wrap)
                 report.merge(res)
                 continue
+            level.extend(res)
+        # the representative history of a state must not depend on completion order or VERIF_SEED:
+        # process the whole level in canonical (label) order
+        level.sort(key=lambda r: [ev_label(e) for e in r[0]])
+        for res in (level,):
             for hh, ok, key, failure, herr, failed_at, log in res:
                 total_exec += 1
                 report.count("transitions")
@@ -585,7 +594,7 @@ def explore(report, pid, uni_name, cls, cfg, events, depth, max_adds=2, tag="", 
                     case = f"{cfgs}|" + " ; ".join(ev_label(e) for e in hh)
                     report.fail(sig, case, failure, {"uni": uni_name, "cls": cls, "cfg": cfg, "hist": [list(e) for e in hh]})
                     continue
-                if key not in seen:
+                if key not in seen or not merge:
                     seen.add(key)
                     nxt.append(hh)
                     report.sample({"cls": cfgs, "history": [ev_label(e) for e in hh], "log": log[-1:]}, limit=6)
@@ -691,10 +700,14 @@ def explore_tree(report, uni_name, cls, cfg, pre, post, pre_depth, post_depth, m
         d += 1
         chunks = [c for c in (frontier[i::64] for i in range(64)) if c]
         nxt = []
+        level = []
         for res in pmap(_expand_tree, chunks):
             if isinstance(res, dict):
                 report.merge(res)
                 continue
+            level.extend(res)
+        level.sort(key=lambda r: [ev_label(e) for e in r[0]])  # canonical order: see explore()
+        for res in (level,):
             for hh, ok, key, failure, herr, failed_at, leak in res:
                 total += 1
                 report.count("transitions")
